@@ -168,7 +168,7 @@ def histories(run):
     # unbounded: KnownIsView (with TypeOK) is an inductive invariant of the repaired mechanism (Apalache, LifecycleInd.tla)
     run.apalache_inductive("LifecycleInd")
     out = []
-    for depth, cap in ([(3, None), (4, 1500)] if not thorough else [(4, None), (5, 20000)]):
+    for depth, cap in ([(3, None), (4, 1500)] if not thorough else [(4, None), (5, 12000)]):
         r = run.tlc("Lifecycle", lcfg(depth, "repaired", True), workers=8, timeout=2400)
         hs = r.json
         if cap and len(hs) > cap:
